@@ -56,7 +56,7 @@ def run_spec(case, ctx):
         from comb_spec_searcher import CombinatorialClass
 
         mode = int(case.get("compressed", 0) or 0)
-        other = U.build_class(start.key(), compressed={0: 4, 1: 5, 4: 0, 5: 1}.get(mode, 4))
+        other = U.build_class(start.key(), compressed={0: 4, 1: 5, 4: 0, 5: 1, 6: 5}.get(mode, 4))
         try:
             other2 = roundtrip(other, CombinatorialClass.from_dict)
             ctx.check(
